@@ -19,14 +19,183 @@ class InstrumentError(ExtractError):
     pass
 
 
-def apply_all(crate):
+def top_level_statements(body_text, tail_is_statement=False):
+    """body_text includes the outer braces.  Returns offsets (into body_text) just AFTER each
+    top-level statement: a `;` at depth 1, or a `}` closing a depth-2 block that is not followed by
+    `.`, `;`, `else`, `)` or `,` (so `if .. { }`, `match .. { }`, `while .. { }` statements)."""
+    mask = code_mask(body_text)
+    ends, depth, par = [], 0, 0
+    i, n = 0, len(mask)
+    while i < n:
+        ch = mask[i]
+        if ch in '([':
+            par += 1
+        elif ch in ')]':
+            par -= 1
+        elif ch == '{':
+            depth += 1
+        elif ch == '}':
+            depth -= 1
+            if depth == 1 and par == 0:
+                k = i + 1
+                while k < n and mask[k] in ' \t\n':
+                    k += 1
+                nxt = mask[k:k + 4]
+                if not (nxt[:1] in '.;),?' or nxt.startswith('else')) and k < n and mask[k] != '}':
+                    ends.append(i + 1)
+                elif k < n and mask[k] == '}' and tail_is_statement:
+                    # block statement in tail position of a unit function
+                    ends.append(i + 1)
+        elif ch == ';' and depth == 1 and par == 0:
+            ends.append(i + 1)
+        i += 1
+    return ends
+
+
+def x2_ack_points(crate):
+    """X2: a call `verif_kani::point(self, k)` before the first and after every top-level statement of
+    CommandAcknowledgementHandle::done (cfg(kani) only; nothing else changes)."""
+    rel = 'src/cache/command/acknowledgement.rs'
+    path = os.path.join(crate, rel)
+    src = Source(path)
+    loc = src.find_fn(r'^impl CommandAcknowledgementHandle$', 'done')
+    body = src.text[loc['body_open']:loc['end']]
+    unit_fn = '->' not in src.mask[loc['start']:loc['body_open']]
+    ends = top_level_statements(body, tail_is_statement=unit_fn)
+    if not ends:
+        raise InstrumentError('X2: no top-level statements found in CommandAcknowledgementHandle::done')
+    out, last = '', 0
+    out += body[:1] + '\n        #[cfg(kani)] verif_kani::point(self, 0);'
+    last = 1
+    for k, e in enumerate(ends):
+        out += body[last:e] + '\n        #[cfg(kani)] verif_kani::point(self, %d);' % (k + 1)
+        last = e
+    out += body[last:]
+    new = src.text[:loc['body_open']] + out + src.text[loc['end']:]
+    open(path, 'w').write(new)
+    return 'X2 %s: %d interference points inserted in CommandAcknowledgementHandle::done (after each of its %d top-level statements)' % (rel, len(ends) + 1, len(ends))
+
+
+def strip_test_modules(crate):
+    """native replays only: remove every top-level `#[cfg(test)] mod .. { }` (and `#[cfg(test)] use ..;`)
+    from the scratch copy so the replay build does not need the dev-dependencies"""
+    n = 0
+    for dp, _dn, fns in os.walk(os.path.join(crate, 'src')):
+        for fn in fns:
+            if not fn.endswith('.rs'):
+                continue
+            path = os.path.join(dp, fn)
+            text = open(path, encoding='utf-8').read()
+            while True:
+                mask = code_mask(text)
+                m = re.search(r'#\[cfg\(test\)\]\s*(?:pub(?:\([^)]*\))?\s+)?(mod\s+\w+\s*\{|use\b)', mask)
+                if not m:
+                    break
+                if m.group(1).startswith('mod'):
+                    ob = mask.index('{', m.start())
+                    end = match_brace(mask, ob) + 1
+                else:
+                    end = mask.index(';', m.start()) + 1
+                text = text[:m.start()] + text[end:]
+                n += 1
+            open(path, 'w').write(text)
+    return 'native replay copy: %d #[cfg(test)] items removed' % n
+
+
+def thread_loop_body(src, impl_re, fn_name):
+    """text between the braces of `while let Ok(..) = receiver.recv() { .. }` inside
+    `thread::spawn(move || { .. })` of the given function"""
+    loc = src.find_fn(impl_re, fn_name)
+    seg_mask = src.mask[loc['body_open']:loc['end']]
+    m = re.search(r'thread::spawn\s*\(\s*move\s*\|\|\s*\{', seg_mask)
+    if not m:
+        raise InstrumentError('X1: thread::spawn(move || {..}) not found in %s' % fn_name)
+    w = re.search(r'while\s+let\s+Ok\((\w+)\)\s*=\s*receiver\.recv\(\)\s*\{', seg_mask[m.end():])
+    if not w:
+        raise InstrumentError('X1: `while let Ok(x) = receiver.recv()` not found in %s' % fn_name)
+    ob = loc['body_open'] + m.end() + w.end() - 1
+    cb = match_brace(src.mask, ob)
+    return src.text[ob + 1:cb], w.group(1), src.line_of(ob)
+
+
+X1_SITES = [
+    # (file, impl regex, fn, generated header; `{var}` is the loop variable bound by `while let Ok(var)`)
+    ('src/cache/expiration/mod.rs', r'^impl TTLTicker$', 'spin',
+     '''#[cfg(kani)]
+impl TTLTicker {{
+    /// X1: one iteration of the sweeper thread's loop, body copied verbatim from `spin` (line {line})
+    #[allow(unused_variables, unreachable_code, clippy::never_loop)]
+    pub(crate) fn verif_sweep_step<EvictHook>(self: Arc<TTLTicker>, clock: ClockType, evict_hook: EvictHook,
+                                             keep_running: Arc<AtomicBool>, receiver: crossbeam_channel::Receiver<std::time::Instant>, {var}: std::time::Instant)
+        where EvictHook: Fn(&KeyId) + Send + Sync + 'static {{
+        loop {{
+{body}
+            break;
+        }}
+    }}
+}}
+'''),
+    ('src/cache/command/command_executor.rs', r'^impl<Key, Value> CommandExecutor<Key, Value>', 'spin',
+     '''#[cfg(kani)]
+impl<Key, Value> CommandExecutor<Key, Value>
+    where Key: Hash + Eq + Send + Sync + Clone + 'static,
+          Value: Send + Sync + 'static {{
+    /// X1: one iteration of the command worker's loop, body copied verbatim from `spin` (line {line})
+    #[allow(unused_variables, unreachable_code, clippy::never_loop)]
+    pub(crate) fn verif_worker_step<DeleteHook>(receiver: Receiver<CommandAcknowledgementPair<Key, Value>>,
+                                               store: Arc<Store<Key, Value>>,
+                                               admission_policy: Arc<AdmissionPolicy<Key>>,
+                                               stats_counter: Arc<ConcurrentStatsCounter>,
+                                               ttl_ticker: Arc<TTLTicker>,
+                                               delete_hook: DeleteHook,
+                                               {var}: CommandAcknowledgementPair<Key, Value>)
+        where DeleteHook: Fn(Key) {{
+        loop {{
+{body}
+            break;
+        }}
+    }}
+}}
+'''),
+    ('src/cache/policy/admission_policy.rs', r'^impl<Key> AdmissionPolicy<Key>', 'start',
+     '''#[cfg(kani)]
+impl<Key> AdmissionPolicy<Key>
+    where Key: Hash + Eq + Send + Sync + Clone + 'static, {{
+    /// X1: one iteration of the access-count consumer's loop, body copied verbatim from `start` (line {line})
+    #[allow(unused_variables, unreachable_code, clippy::never_loop)]
+    pub(crate) fn verif_consumer_step(receiver: Receiver<BufferEvent>, access_frequency: Arc<RwLock<TinyLFU>>,
+                                      keep_running: Arc<AtomicBool>, {var}: BufferEvent) {{
+        loop {{
+{body}
+            break;
+        }}
+    }}
+}}
+'''),
+]
+
+
+def x1_thread_bodies(crate):
     edits = []
-    for fn in (x3_hashset,):
-        e = fn(crate)
-        if e:
-            edits.append(e)
-    return edits
+    for (rel, impl_re, fn, tpl) in X1_SITES:
+        path = os.path.join(crate, rel)
+        src = Source(path)
+        body, var, line = thread_loop_body(src, impl_re, fn)
+        with open(path, 'a') as f:
+            f.write('\n' + tpl.format(body=body.rstrip(), var=var, line=line))
+        edits.append('X1 %s: body of the `while let Ok(%s) = receiver.recv()` loop in %s (line %d) copied verbatim into a cfg(kani) function; '
+                     'dropped: the recv() header, i.e. one call = one iteration' % (rel, var, fn, line))
+    return '; '.join(edits)
 
 
 def x3_hashset(crate):
     return None
+
+
+def apply_all(crate):
+    edits = []
+    for fn in (x1_thread_bodies, x2_ack_points, x3_hashset):
+        e = fn(crate)
+        if e:
+            edits.append(e)
+    return edits
